@@ -50,6 +50,8 @@ class Ref:
         if mode == 'TOP':
             add(('select', ('PLAIN', (), 0, 0), False, 0))
             add(('name', ('PLAIN', (), 0, 0), False, 0))
+            # a transaction statement (BEGIN; / BEGIN WORK;) is a plain statement that starts with a block keyword
+            add(('begin', ('PLAIN', (), 0, 0), False, 0))
             if not self.plain_only:
                 add(('create', ('HDR0', (), 0, 0), False, 0))
                 add(('create-or-replace', ('HDR0', (), 0, 0), False, 0))
